@@ -91,17 +91,35 @@ func Start(bin string, env []string) (*Worker, error) {
 // result is (nil, ErrKilled); any other failure is an infrastructure error.
 func (w *Worker) Do(req *proto.RunReq, timeout time.Duration) (*proto.RunResp, error) {
 	w.mu.Lock()
-	defer w.mu.Unlock()
-	if w.dead {
-		return nil, fmt.Errorf("worker already dead")
-	}
 	w.nextID++
 	req.ID = w.nextID
+	w.mu.Unlock()
 	data, err := json.Marshal(req)
 	if err != nil {
 		return nil, err
 	}
-	data = append(data, '\n')
+	line, err := w.DoRaw(data, timeout)
+	if err != nil {
+		return nil, err
+	}
+	var resp proto.RunResp
+	if err := json.Unmarshal(line, &resp); err != nil {
+		return nil, fmt.Errorf("bad response: %w", err)
+	}
+	if resp.ID != req.ID {
+		return nil, fmt.Errorf("response id %d for request %d", resp.ID, req.ID)
+	}
+	return &resp, nil
+}
+
+// DoRaw sends one JSON request line and returns the response line.
+func (w *Worker) DoRaw(data []byte, timeout time.Duration) ([]byte, error) {
+	w.mu.Lock()
+	defer w.mu.Unlock()
+	if w.dead {
+		return nil, fmt.Errorf("worker already dead")
+	}
+	data = append(append([]byte{}, data...), '\n')
 	timer := time.AfterFunc(timeout, func() {
 		// watchdog: infrastructure trouble, not a verdict
 		_ = w.cmd.Process.Signal(syscall.SIGQUIT)
@@ -114,18 +132,10 @@ func (w *Worker) Do(req *proto.RunReq, timeout time.Duration) (*proto.RunResp, e
 	}
 	line, err := w.respR.ReadBytes('\n')
 	if err != nil {
-		werr := w.fail(err)
-		return nil, werr
-	}
-	var resp proto.RunResp
-	if err := json.Unmarshal(line, &resp); err != nil {
-		return nil, fmt.Errorf("bad response: %w", err)
-	}
-	if resp.ID != req.ID {
-		return nil, fmt.Errorf("response id %d for request %d", resp.ID, req.ID)
+		return nil, w.fail(err)
 	}
 	w.Served++
-	return &resp, nil
+	return line, nil
 }
 
 func (w *Worker) fail(cause error) error {
